@@ -54,9 +54,25 @@ Proof.
   unfold src_apk_filename, model_filename. cbv zeta. rewrite src_apk_pkgver_is_model. norm. reflexivity.
 Qed.
 
+(* archlinux: the character test, the name clean-up and the file name *)
+Lemma src_arch_mapValidChar_is_model b : src_arch_mapValidChar b = valid_pkg_char' b.
+Proof. destruct b; reflexivity. Qed.
+
+Lemma filter_ext_b (f g : byte -> bool) (l : str) : (forall b, f b = g b) -> filter f l = filter g l.
+Proof. intros H. induction l as [|x l IH]; cbn [filter]; [reflexivity|]. rewrite H, IH. reflexivity. Qed.
+
+Lemma src_arch_filename_is_model archtab i :
+  src_arch_filename i (translate_arch archtab (gs i "archlinux.arch") (gs i "arch")) = model_filename FArch archtab i.
+Proof.
+  unfold src_arch_filename, src_arch_validPkgName, model_filename, arch_pkgrel. cbv zeta.
+  rewrite (filter_ext_b _ _ _ src_arch_mapValidChar_is_model).
+  repeat rewrite <- app_assoc. reflexivity.
+Qed.
+
 Lemma all_translated :
   src_rpm_defaultTo_translated && src_rpm_formatVersion_translated && src_rpm_filename_translated && src_deb_filename_translated
-  && src_ipk_filename_translated && src_apk_pkgver_translated && src_apk_filename_translated = true.
+  && src_ipk_filename_translated && src_apk_pkgver_translated && src_apk_filename_translated
+  && src_arch_mapValidChar_translated && src_arch_validPkgName_translated && src_arch_filename_translated = true.
 Proof. reflexivity. Qed.
 
 (* ---- files.isRelevantForPackager as translated equals the planning model's is_relevant ---- *)
